@@ -95,11 +95,6 @@ pub fn assemble(r: &Replay, sizes: &[(u8, u16)], body: &[Vec<u8>], junk: &[u8], 
     let mut raw = vec![0x35, (sizes.len() * 3 + 1) as u8];
     for (c, s) in sizes { raw.push(*c); raw.extend(s.to_be_bytes()); }
     raw.push(0x36); raw.extend(&r.start_block); raw.extend(pad_bytes(pad.gstart, 6));
-    if let Some((bytes, actual)) = &r.gecko {
-        let mut pos = 0usize; let actual = *actual as usize;
-        while pos < actual { raw.push(0x10); raw.extend(&bytes[pos..pos+512]);
-            raw.extend(((512.min(actual - pos)) as u16).to_be_bytes()); raw.push(0x3D); pos += 512; raw.push((pos >= actual) as u8); }
-    }
     for e in body { raw.extend(e); }
     if let Some(e) = &r.end { raw.push(0x39); raw.extend(e); raw.extend(pad_bytes(pad.gend, 7)); if r.double_end { raw.push(0x39); raw.extend(e); raw.extend(pad_bytes(pad.gend, 7)); } }
     raw.extend(junk);
@@ -111,7 +106,18 @@ pub fn assemble(r: &Replay, sizes: &[(u8, u16)], body: &[Vec<u8>], junk: &[u8], 
     out
 }
 
-pub fn body_events(r: &Replay, pad: &Pad) -> Vec<Vec<u8>> { r.frames.iter().flat_map(|f| frame_events(r, f, pad)).collect() }
+/// the message-splitter blocks carrying the Gecko codes, one event each
+pub fn gecko_events(r: &Replay) -> Vec<Vec<u8>> {
+    let mut out = vec![];
+    if let Some((bytes, actual)) = &r.gecko {
+        let mut pos = 0usize; let actual = *actual as usize;
+        while pos < actual { let mut e = vec![0x10]; e.extend(&bytes[pos..pos+512]);
+            e.extend(((512.min(actual - pos)) as u16).to_be_bytes()); e.push(0x3D); pos += 512; e.push((pos >= actual) as u8); out.push(e); }
+    }
+    out
+}
+/// everything between Game Start and Game End: Gecko blocks, then the frames
+pub fn body_events(r: &Replay, pad: &Pad) -> Vec<Vec<u8>> { gecko_events(r).into_iter().chain(r.frames.iter().flat_map(|f| frame_events(r, f, pad))).collect() }
 pub fn encode(r: &Replay) -> Vec<u8> { let pad = Pad::default(); assemble(r, &table(r, &pad), &body_events(r, &pad), &[], &pad) }
 pub fn encode_padded(r: &Replay, pad: &Pad) -> Vec<u8> { assemble(r, &table(r, pad), &body_events(r, pad), &[], pad) }
 
